@@ -301,7 +301,16 @@ pub fn main(args: &[String]) -> i32 {
         let mut raw1 = obs::take();
         drop(store);                       // (unobserved; the old file is abandoned)
         let dev_idx: Vec<usize> = raw1.iter().enumerate().filter(|(_, e)| e.kind == "w" || e.kind == "fsync").map(|(i, _)| i).collect();
-        let cut = if dev_idx.is_empty() { raw1.len() } else { dev_idx[dev_idx.len() * 2 / 3 + rng.random_range(0..(dev_idx.len() - dev_idx.len() * 2 / 3))] + 1 };
+        // crash points of particular interest: right after a journal write became durable (the
+        // intent of a batch / retirement, or its clear: data durable but old generations not yet retired)
+        let mut jpoints: Vec<usize> = Vec::new();
+        for w in dev_idx.windows(2) {
+            let (a, b) = (&raw1[w[0]], &raw1[w[1]]);
+            if a.kind == "w" && (a.a == 1 || a.a == 4) && b.kind == "fsync" && w[1] > raw1.len() / 4 { jpoints.push(w[1]); }
+        }
+        let cut = if dev_idx.is_empty() { raw1.len() }
+            else if !jpoints.is_empty() && rng.random_bool(0.6) { jpoints[rng.random_range(0..jpoints.len())] + 1 }
+            else { dev_idx[dev_idx.len() * 2 / 3 + rng.random_range(0..(dev_idx.len() - dev_idx.len() * 2 / 3))] + 1 };
         raw1.truncate(cut);
         let mut all = prev_raw.clone();
         all.extend(raw1.iter().cloned());
@@ -352,6 +361,25 @@ pub fn main(args: &[String]) -> i32 {
         }
         restart_reports.push(store_report(&store, &keys));
         obs::api("restarted", &[], restart_reports.len() as u64 - 1, now, 0);
+        if rng.random_bool(0.6) {
+            // acknowledged deletes right after a restart: anything stale that recovery left on the
+            // device would come back after the next crash
+            for (i, k) in keys.iter().enumerate() {
+                if rng.random_bool(0.7) {
+                    let call_idx = calls.len() as u64;
+                    obs::api("api_call", k, call_idx, 0, 0);
+                    let ok = store.delete(k).is_ok();
+                    if ok { cur_val.remove(&(i + 1)); }
+                    calls.push(CallInfo { kid: i + 1, key: k.clone(), gen: None, deleted: ok });
+                    obs::api("api_ret", k, call_idx, 0, 0);
+                }
+            }
+            let id = flushes.len() as u64;
+            obs::api("flush_begin", &[], id, 0, 0);
+            let res = store.flush();
+            flushes.push(FlushInfo { ok: res.is_ok(), snap: snapshot(&store, &keys) });
+            obs::api("flush_end", &[], id, res.is_ok() as u64, 0);
+        }
     }
     }
     if noflush {
@@ -534,10 +562,13 @@ fn emit_trace(
             "api_call" => {
                 let c = &calls[e.a as usize];
                 if let Some((ts, exp, val)) = &c.gen {
+                    let known = gens.gens.len();
                     let g = gens.add(c.kid, &c.key, *ts, *exp, val, fmt);
                     call_gid[e.a as usize] = g as i64;
                     let gi = &gens.gens[g - 1];
-                    events.push(json!({"e": "gen", "g": g, "k": c.kid, "ts": rk(*ts), "exp": rk(*exp), "n": gi.blocks}));
+                    if g > known {
+                        events.push(json!({"e": "gen", "g": g, "k": c.kid, "ts": rk(*ts), "exp": rk(*exp), "n": gi.blocks}));
+                    }
                     events.push(json!({"e": "call", "k": c.kid, "g": g}));
                 } else if c.deleted {
                     call_gid[e.a as usize] = 0;
